@@ -364,7 +364,7 @@ def _draw_lits(spec, count):
         lits[r.randrange(k)] = 0
         return lits, "bad"
     lits = [r.randint(1, count + 2) for _ in range(k)]
-    lits[r.randrange(k)] = r.choice(["a", None, (1, 2)])
+    lits[r.randrange(k)] = r.choice(["a", None, (1, 2), 1.5, 2.0])
     return lits, "bad"
 
 
